@@ -7,4 +7,5 @@ func fn() {
 
 	_ = !(a && b && (!c || e > f) && g == f) //@ diag(`could apply De Morgan's law`)
 	_ = !(a && h > i)
+	_ = !!(a && b) //@ diag(`could apply De Morgan's law`)
 }
